@@ -79,6 +79,7 @@ func NewBadgerWAL(db *badger.DB, groupId uuid.UUID) *badgerWAL {
 }
 
 func (this *badgerWAL) InitialState() (raftpb.HardState, raftpb.ConfState, error) {
+	verifIO(this.db, this.groupId, "read", true)
 	hardState, err := this.HardState()
 	if err != nil {
 		return raftpb.HardState{}, raftpb.ConfState{}, err
@@ -93,6 +94,7 @@ func (this *badgerWAL) InitialState() (raftpb.HardState, raftpb.ConfState, error
 }
 
 func (this *badgerWAL) Entries(lo, hi, maxSize uint64) ([]raftpb.Entry, error) {
+	verifIO(this.db, this.groupId, "read", true)
 	firstIndex, err := this.FirstIndex()
 	if err != nil {
 		return nil, err
@@ -113,6 +115,7 @@ func (this *badgerWAL) Entries(lo, hi, maxSize uint64) ([]raftpb.Entry, error) {
 }
 
 func (this *badgerWAL) Term(idx uint64) (uint64, error) {
+	verifIO(this.db, this.groupId, "read", true)
 	firstIndex, err := this.FirstIndex()
 	if err != nil {
 		return 0, err
@@ -136,6 +139,7 @@ func (this *badgerWAL) Term(idx uint64) (uint64, error) {
 }
 
 func (this *badgerWAL) LastIndex() (uint64, error) {
+	verifIO(this.db, this.groupId, "read", true)
 	if v, exists := this.cache.Load(cacheLastIndexKey); exists {
 		if idx, ok := v.(uint64); ok {
 			return idx, nil
@@ -145,6 +149,7 @@ func (this *badgerWAL) LastIndex() (uint64, error) {
 }
 
 func (this *badgerWAL) FirstIndex() (uint64, error) {
+	verifIO(this.db, this.groupId, "read", true)
 	// Try cache
 	if v, exists := this.cache.Load(cacheSnapshotKey); exists {
 		if snapshot, ok := v.(*raftpb.Snapshot); ok && !etcdRaft.IsEmptySnap(*snapshot) {
@@ -166,6 +171,7 @@ func (this *badgerWAL) FirstIndex() (uint64, error) {
 }
 
 func (this *badgerWAL) Snapshot() (raftpb.Snapshot, error) {
+	verifIO(this.db, this.groupId, "read", true)
 	if v, exists := this.cache.Load(cacheSnapshotKey); exists {
 		if snapshot, ok := v.(*raftpb.Snapshot); ok && !etcdRaft.IsEmptySnap(*snapshot) {
 			return *snapshot, nil
@@ -189,6 +195,7 @@ func (this *badgerWAL) Snapshot() (raftpb.Snapshot, error) {
 }
 
 func (this *badgerWAL) HardState() (raftpb.HardState, error) {
+	verifIO(this.db, this.groupId, "read", true)
 	var hardState raftpb.HardState
 	err := this.db.View(func(txn *badger.Txn) error {
 		item, err := txn.Get(this.hardStateKey())
